@@ -739,7 +739,14 @@ impl Parser {
         }
 
         match lexem {
-            Some(Lexem::String(ref s)) | Some(Lexem::RawString(ref s)) => {
+            Some(Lexem::String(ref s)) => {
+                // a quoted literal is always text, even when it spells a column or a function
+                let mut expr = Expr::value(s.to_string());
+                expr.minus = minus;
+
+                Ok(Some(expr))
+            }
+            Some(Lexem::RawString(ref s)) => {
                 if let Ok(field) = Field::from_str(s) {
                     let mut expr = Expr::field(field);
                     expr.minus = minus;
